@@ -51,6 +51,19 @@ def _probe(src, info):
             if src.chance(1, 3):
                 k["_insert"] = True
         return {"t": "call", "m": f"with_{s}", "a": [["$item", a, src.choice(3)]], "k": k}
+    lookups = [(n, item) for item in (False, True) for n in info.attrs() if info.prepare_kind(n, item=item) == "lookup"]
+    if lookups and src.chance(1, 3):
+        # a shorthand that the preparer resolves to an object the instance already holds, together with nested keywords the
+        # LAST of which is refused: the earlier ones must not have reached the resolved (pre-existing) object
+        n, item = src.pick(lookups)
+        T = info.attrs()[n]["type"]
+        cname = grammar.elem_type(T)[1] if item else T[1]
+        first, second = ("a", "b") if cname == "U" else ("v", "notes")
+        kw = {first: src.pick([7, -3, 0]), second: src.pick([5, None, ["list", [1]]]), "_inplace": src.chance(1, 2)}
+        if item:
+            args = [src.pick(grammar.KEYS), "shorthand"] if T[0] == "dict" else ["shorthand"]
+            return {"t": "call", "m": f"with_{grammar.SINGULAR[n]}", "a": args, "k": kw, "bad": "elem"}
+        return {"t": "call", "m": f"with_{n}", "a": ["shorthand"], "k": kw, "bad": "top"}
     return ops.gen_op(src, info, inplace=None, bad_rate=(45, 100), allow=("scalar", "element", "top", "nested"))
 
 
@@ -59,7 +72,7 @@ def run_case(ctx, case):
 
 
 BOUNDS = {"quick": dict(examples=500, units=16), "thorough": dict(examples=6000, units=16)}
-PROFILE = dict(grammar.PROFILES["data"], post_copy=True, class_dnc=True)
+PROFILE = dict(grammar.PROFILES["data"], post_copy=True, class_dnc=True, lookup_preparers=True)
 
 
 def units(tier, seed):
